@@ -35,8 +35,8 @@ def configs(tier):
     return out if tier == 'thorough' else out[::3] + out[1:2]
 
 
-def prepare(cfg, transport='udp'):
-    r = make_rig(cfg, transport)
+def prepare(cfg, transport='udp', R=0, ka=False):
+    r = make_rig(cfg, transport, R=R, ka=ka)
     dev = r.dev
     v1 = {'charge': ECO_V1_BASE[1], 'off': ECO_V1_BASE[0], 'undecodable': bytes([99] * 8)}.get(cfg['eco'], ECO_V1_BASE[2])
     v2 = {'charge': SCHED_BASE[1], 'off': SCHED_BASE[0], 'undecodable': bytes([99] * 12), 'peak-typed': SCHED_BASE[2],
@@ -146,6 +146,43 @@ def job_reads(j):
         lst[0]['n'] = len(lst)
         res.append(lst[0])
     return n, edges, len(seen), res, len(oc)
+
+
+def run_connect_fault(cfg, setter, reader, ka, k):
+    """[read_device_info, setter, reader] over Modbus/TCP with one retry; connection attempt #k is refused once."""
+    r = prepare(cfg, 'tcp', R=1, ka=ka)
+    r.dev.refuse_connect_at = {k} if k is not None else set()
+    r.call(r.inv.read_device_info)
+    do_set(r, setter)
+    l0 = len(r.dev.log)
+    res = do_read(r, reader)
+    w = [q for q in r.dev.log[l0:] if q.get('fn') not in (3, 'read')]
+    return w, res, len(r.dev.connects)
+
+
+def job_connect_faults(j):
+    cfg, ka = j
+    out = {}
+    n = 0
+    for setter in SETTERS:
+        for reader in READ_OPS:
+            _, _, nconn = run_connect_fault(cfg, setter, reader, ka, None)
+            n += 1
+            for k in range(nconn + 1):
+                w, res, _ = run_connect_fault(cfg, setter, reader, ka, k)
+                n += 1
+                if w:
+                    key = f"read-only/{cfg['family']}/{reader.split(':')[0]}/after-setter+refused-connect"
+                    out.setdefault(key, []).append(dict(
+                        key=key, clause='monitoring calls transmit only read requests',
+                        replay=dict(part='connect-fault', cfg=cfg, setter=setter, reader=reader, ka=ka, k=k),
+                        detail=dict(history=['read_device_info', setter, reader], refused_connect_index=k, keep_alive=ka,
+                                    write_seen=str(w[0])[:100])))
+    res = []
+    for key, lst in out.items():
+        lst[0]['n'] = len(lst)
+        res.append(lst[0])
+    return n, res
 
 
 def run_entry(kind, cfg):
@@ -274,6 +311,11 @@ def run(tier, seed, rep):
             if w:
                 rep.add(f"read-only/{cfg['family']}/{kind}", 'monitoring calls transmit only read requests',
                         dict(part='entry', cfg=cfg, kind=kind), dict(write_seen=str(w[0])[:100]))
+    ncf = 0
+    cf_cfgs = [c for c in cfgs if c['family'] != 'ES' and c['refused'] == () and c['eco'] in ('off', 'charge')]
+    for n, res in pmap(job_connect_faults, [(c, ka) for c in (cf_cfgs if tier == 'thorough' else cf_cfgs[:3]) for ka in (False, True)]):
+        ncf += n
+        rep.add_many(res)
     fams = [c for c in cfgs if c['eco'] == 'off' or c['family'] == 'DT']
     reps = {}
     for c in fams:
@@ -289,7 +331,8 @@ def run(tier, seed, rep):
             rep.add(f"vacuity/{c['family']}/{name}", 'in-range arguments must produce a write (harness sanity)',
                     dict(part='vacuity', cfg=c), dict(call=name))
     cov = dict(api_session_histories=_api['histories'], api_session_states=_api['states'],
-               states=states, transitions=max(edges, 1), executions=total + ne + ns, traces_validated_against_impl=total + ne + ns,
+               states=states, transitions=max(edges, 1), executions=total + ne + ns + ncf, traces_validated_against_impl=total + ne + ns + ncf,
+               connect_fault_runs=ncf,
                read_sequences=total, entry_point_runs=ne, setter_calls=ns, distinct_read_outcomes=ocs, exhaustive=True,
                bound=f'BFS over read-only call sequences of depth <= {depth} ({len(READ_OPS)} calls) with state de-duplication x '
                      f'{len(cfgs)} configurations (families, capability fallbacks, eco-mode register contents); connect() and '
@@ -322,6 +365,9 @@ def replay(r):
             outs.append(str(do_read(rg, op))[:80])
             w += [q for q in rg.dev.log[l0:] if q.get('fn') not in (3, 'read')]
         return dict(outcomes=outs, violations=[str(x) for x in w])
+    if r['part'] == 'connect-fault':
+        w, res, nconn = run_connect_fault(cfg, r['setter'], r['reader'], r['ka'], r['k'])
+        return dict(outcome=str(res)[:100], connects=nconn, violations=[str(x) for x in w])
     if r['part'] == 'entry':
         w, res = run_entry(r['kind'], cfg)
         return dict(result=res, violations=[str(x) for x in w])
